@@ -24,6 +24,9 @@ type Env struct {
 	PkgPath string
 	depth   int
 	inOld   bool
+	// Head: the state at the head of the loop whose back edge is being checked (loop step clauses)
+	Head     *State
+	HeadVars map[string]Value
 }
 
 type evalErr string
@@ -717,6 +720,36 @@ func (x *Exec) evalCall(env *Env, e *Expr) Value {
 			v := x.materialize(&ne, x.eval(&ne, args[0]))
 			env.St.Assumes = env.Old.Assumes
 			env.Old.Assumes = save
+			return v
+		case "athead":
+			// athead(e): the value of e at the head of the loop, i.e. at the start of the iteration whose
+			// back edge is being checked (memory, heap, locals and ghosts as they were there)
+			if env.Head == nil {
+				x.fail("athead() outside a loop step clause")
+			}
+			ne := *env
+			ne.St = env.Head
+			ne.Vars = env.HeadVars
+			save := env.Head.Assumes
+			env.Head.Assumes = env.St.Assumes
+			v := x.materialize(&ne, x.eval(&ne, args[0]))
+			env.St.Assumes = env.Head.Assumes
+			env.Head.Assumes = save
+			return v
+		case "memathead":
+			// memathead(e): e with the *current* locals, heap and ghosts, but memory contents (slice
+			// elements) as they were at the head of the loop: "the bytes this slice denoted at the start
+			// of the iteration"
+			if env.Head == nil {
+				x.fail("memathead() outside a loop step clause")
+			}
+			ne := *env
+			st2 := *env.St
+			st2.Mems = env.Head.Mems
+			st2.HLog = env.Head.HLog
+			ne.St = &st2
+			v := x.materialize(&ne, x.eval(&ne, args[0]))
+			env.St.Assumes = st2.Assumes
 			return v
 		case "len":
 			switch v := x.eval(env, args[0]).(type) {
